@@ -25,6 +25,7 @@ STATE = {
     "fired": None,     # description of the fault that fired
     "record": True,
     "connections": 0,
+    "fetches": [],     # list of [number of events so far, method]: rows read from a result, counted apart from events
 }
 
 _EXC = {
@@ -33,6 +34,13 @@ _EXC = {
     "OperationalError": sqlite3.OperationalError,
     "DatabaseError": sqlite3.DatabaseError,
     "ProgrammingError": sqlite3.ProgrammingError,
+    "DataError": sqlite3.DataError,
+    "NotSupportedError": sqlite3.NotSupportedError,
+    # what the sqlite3 module raises for a value it cannot bind or a statement it cannot take: not sqlite3.Error at all
+    "OverflowError": OverflowError,
+    "ValueError": ValueError,
+    "TypeError": TypeError,
+    "MemoryError": MemoryError,
     # a signal handler that ends the process in an orderly way (Ctrl-C, sys.exit() on SIGTERM): `finally` blocks run
     "KeyboardInterrupt": KeyboardInterrupt,
     "SystemExit": SystemExit,
@@ -44,6 +52,10 @@ def reset(plan=None):
     STATE["plan"] = plan
     STATE["fired"] = None
     STATE["connections"] = 0
+    STATE["fetches"] = []
+    if plan is not None and "fetch" in plan:
+        plan.setdefault("event", -1)
+        plan.setdefault("when", "fetch")
 
 
 def events():
@@ -118,6 +130,32 @@ def _gate(kind, head, when):
     raise RuntimeError("unknown fault action " + action)
 
 
+def fetches():
+    return STATE["fetches"]
+
+
+def _fetch_gate(cur, name):
+    """Reading rows from a result is where the storage layer reports an error for a SELECT (rows are produced lazily).
+    Fetches are numbered apart from the events, so that event ordinals in stored replays keep their meaning."""
+    st = STATE
+    st["fetches"].append([len(st["events"]), name])
+    plan = st["plan"]
+    if plan is None or plan.get("fetch") != len(st["fetches"]):
+        return
+    st["plan"] = None
+    st["fired"] = {"fetch": len(st["fetches"]), "when": "fetch", "action": plan["action"], "kind": "fetch", "head": name}
+    action = plan["action"]
+    if action == "exit":
+        os._exit(137)
+    # an error reported by sqlite3 leaves the statement reset: do the same
+    try:
+        sqlite3.Cursor.fetchall(cur)
+    except sqlite3.Error:
+        pass
+    parts = action.split(":", 2)
+    raise _EXC[parts[1]](parts[2] if len(parts) > 2 else "injected fault")
+
+
 def _will_fire_after():
     plan = STATE["plan"]
     return plan is not None and plan["event"] == len(STATE["events"]) and plan["when"] == "after"
@@ -133,6 +171,22 @@ class SimCursor(sqlite3.Cursor):
                 sqlite3.Cursor.fetchall(self)
             except sqlite3.Error:
                 pass
+
+    def fetchone(self):
+        _fetch_gate(self, "fetchone")
+        return super().fetchone()
+
+    def fetchall(self):
+        _fetch_gate(self, "fetchall")
+        return super().fetchall()
+
+    def fetchmany(self, *args, **kwargs):
+        _fetch_gate(self, "fetchmany")
+        return super().fetchmany(*args, **kwargs)
+
+    def __next__(self):
+        _fetch_gate(self, "next")
+        return super().__next__()
 
     def execute(self, sql, *args, **kwargs):
         h = head_of(sql)
